@@ -28,7 +28,7 @@ ASSUMPTIONS = ['self pairs at distance 0 are counted as the code counts them (bi
 
 def pre_build():
     import translate
-    return [translate.gen_state_code()]
+    return [translate.gen_state_code(), translate.gen_rdf_shape()]
 
 
 def gen_cases(rng, tier):
